@@ -8,6 +8,7 @@ A case is self-contained JSON (see `gen_case`), so a replay file needs nothing
 else.
 """
 import contextlib
+import json
 
 import gtirb
 
@@ -79,6 +80,10 @@ def build(case):
         else:
             s, bi = add_section(m, sname, address=addr)
         lst = []
+        if key == "text" and case.get("lead"):
+            # bytes at the start of the interval that no block covers
+            bi.contents = bytes(bi.contents) + b"\xcc" * case["lead"]
+            bi.size = len(bi.contents)
         for d in descs:
             if d["kind"] == "code":
                 data = b""
@@ -164,6 +169,12 @@ def build(case):
         A.elf_dynamic_init.set(m, B.blocks[case["init"]])
     if case.get("fini") is not None:
         A.elf_dynamic_fini.set(m, B.blocks[case["fini"]])
+    if case.get("no_addr"):
+        # a module that has not been laid out: no byte interval has an address
+        for bi in m.byte_intervals:
+            bi.address = None
+    if case.get("safeseh"):
+        A.pe_safe_exception_handlers.set(m, {B.blocks[i] for i in case["safeseh"]})
     B.flat = flat
     return B
 
@@ -321,10 +332,27 @@ def register_edits(B, ctx, edits, asm_hook=None):
     def mk(e):
         if "asm" not in e:
             return bytes(e["bytes"])
-        return make_patch(e["asm"], get_asm=asm_hook(e["asm"]) if asm_hook else None)
+        cons = None
+        if e.get("constraints"):
+            from gtirb_rewriting import Constraints
 
+            c = e["constraints"]
+            cons = Constraints(clobbers_flags=bool(c.get("flags")), clobbers_registers=set(c.get("clobbers", [])),
+                               scratch_registers=int(c.get("scratch", 0)), align_stack=bool(c.get("align")),
+                               preserve_caller_saved_registers=bool(c.get("preserve")))
+        return make_patch(e["asm"], cons, get_asm=asm_hook(e["asm"]) if asm_hook else None)
+
+    done_groups = set()
     for e in edits:
         blk = B.blocks[e["block"]]
+        if e.get("all") is not None:
+            # the members of a scope-wide registration stand for one register_insert call
+            if e["all"] not in done_groups:
+                from gtirb_rewriting import AllBlocksScope, BlockPosition
+
+                done_groups.add(e["all"])
+                ctx.register_insert(AllBlocksScope(BlockPosition.ENTRY), mk(e))
+            continue
         if e["op"] == "insert":
             ctx.insert_at(blk, e["off"], mk(e))
         elif e["op"] == "replace":
@@ -447,6 +475,12 @@ def gen_case(rng, nblocks=None, with_data=True, with_funcs=True, nedits=None, cf
     for key, p in (("entry", 0.25), ("init", 0.2), ("fini", 0.2)):
         if code_idx and rng.random() < p:
             case[key] = rng.choice(code_idx)
+    # now and then a PE module with registered exception handlers
+    if code_idx and rng.random() < 0.12:
+        case["ff"] = "PE"
+        case.pop("init", None)
+        case.pop("fini", None)
+        case["safeseh"] = sorted(set(rng.choice(code_idx) for _ in range(rng.randint(1, 2))))
     if cfg_domain:
         # C03: keep the module inside "CFG consistent with the code": drop requests that would
         # leave code running off into data / the end of the section
@@ -466,6 +500,9 @@ PATCHES = [
     lambda rng, L, X: "jmp %s" % rng.choice(L),
     lambda rng, L, X: "ret",
     lambda rng, L, X: "leaq %s(%%rip), %%rax" % rng.choice(L),
+    lambda rng, L, X: "leaq %s+%d(%%rip), %%rax" % (rng.choice(L), rng.choice([4, 8])),
+    lambda rng, L, X: "addl $%d, %s(%%rip)" % (rng.randint(1, 99), rng.choice(L)),
+    lambda rng, L, X: "movl $%d, %s+%d(%%rip)" % (fresh_imm(rng), rng.choice(L), rng.choice([4, 8])),
     lambda rng, L, X: "pushq %rax\n.cfi_adjust_cfa_offset 8\npopq %rax\n.cfi_adjust_cfa_offset -8",
 ]
 DATA_PATCHES = [
@@ -480,6 +517,7 @@ def gen_edits(rng, case, nedits=None):
     text = case["text"]
     labels = [s["name"] for d in text if d["kind"] == "code" for s in d["syms"] if not s.get("at_end")]
     ext = list(case.get("externs", []))
+    auto = nedits is None
     nedits = nedits if nedits is not None else rng.choice([0, 1, 1, 2, 2, 3, 4])
     edits = []
     used = {}
@@ -517,6 +555,14 @@ def gen_edits(rng, case, nedits=None):
         used[bi] = end
         edits.append(e)
     rng.shuffle(edits)
+    # one registration through a scope: register_insert(AllBlocksScope(ENTRY), patch) - in the listing an insertion
+    # at offset 0 of every code block, all with the registration order of that one call
+    code = [i for i, d in enumerate(text) if d["kind"] == "code"]
+    if code and auto and rng.random() < 0.1:
+        asm = rng.choice(["nop", "movl $%d, %%eax" % fresh_imm(rng), "pushq %rax\n.cfi_adjust_cfa_offset 8\npopq %rax\n.cfi_adjust_cfa_offset -8"])
+        group = [{"op": "insert", "block": i, "off": 0, "asm": asm, "all": 1} for i in code]
+        k = rng.randint(0, len(edits))
+        edits[k:k] = group
     return edits
 
 
@@ -528,6 +574,26 @@ def processing_order(B, case):
     address, within a block by (offset, registration order)."""
     edits = list(enumerate(case.get("edits", [])))
     return sorted(edits, key=lambda ie: (B.blocks[ie[1]["block"]].address if False else ie[1]["block"], ie[1]["off"], ie[0]))
+
+
+_asm_cache = {}
+
+
+def asm_bytes(asm, module):
+    """the bytes a patch text assembles to on its own (symbolic operands are zero): used to tell which request a
+    recorded insertion belongs to"""
+    key = (asm, module.isa, module.file_format)
+    if key not in _asm_cache:
+        from gtirb_rewriting.assembler import Assembler
+
+        try:
+            a = Assembler(Assembler.ModuleTarget(module, detached=True), allow_undef_symbols=True, temp_symbol_suffix="_x",
+                          implicit_cfi_procedure=True)
+            a.assemble(asm)
+            _asm_cache[key] = list(a.finalize().text_section.data)
+        except Exception:  # noqa: BLE001
+            _asm_cache[key] = None
+    return _asm_cache[key]
 
 
 def listing_edits(B, rec, case):
@@ -550,6 +616,10 @@ def listing_edits(B, rec, case):
             p = r["do"]["patch"]
             t = p["text"]
             led["ins"] = t["data"]
+            if "asm" in e and not e.get("constraints"):
+                own = asm_bytes(e["asm"], B.m)
+                if own is not None and own != list(t["data"]):
+                    led["_foreign_bytes"] = True      # this operation carries another request's patch
             boff = {b["id"]: b for b in t["blocks"]}
             for y in p["syms"]:
                 if y["ref"] and y["ref"][0] == "b" and y["ref"][1] in boff:
@@ -611,7 +681,36 @@ def run_listing(case, pre=None):
     B.dump1 = irdump.dump_ir(B.m, rec.idm)
     out = {"B": B, "rec": rec, "err": err, "pre": pre_result, "err_where": err_where, "err_line": err_line, "before": B.dump0, "after": B.dump1}
     out["edits"] = listing_edits(B, rec, case) if err is None else None
+    if case.get("lead"):
+        out["before"] = strip_lead(out["before"], case["lead"])
+        out["after"] = strip_lead(out["after"], case["lead"])
     return out
+
+
+def strip_lead(dump, n):
+    """The listing is made of blocks; bytes in front of the first block of .text that no block covers are left out
+    of both dumps (they must still be there, untouched and uncovered, or the dump is handed on as it is)."""
+    d = json.loads(json.dumps(dump))
+    sid = next((s[0] for s in d["sections"] if s[1] == ".text"), None)
+    ivs = [iv for iv in d["intervals"] if iv["sect"] == sid]
+    if not ivs:
+        return dump
+    iv = min(ivs, key=lambda i: (i["addr"] if i["addr"] is not None else 1 << 62, i["id"]))
+    mine = [b for b in d["blocks"] if b["bi"] == iv["id"]]
+    if iv["bytes"][:n] != [0xCC] * n or any(b["off"] < n for b in mine) or any(k < n for k, _ in iv["symexprs"]):
+        return dump
+    iv["bytes"] = iv["bytes"][n:]
+    iv["size"] -= n
+    if iv["addr"] is not None:
+        iv["addr"] += n
+    for b in mine:
+        b["off"] -= n
+    iv["symexprs"] = [[k - n, v] for k, v in iv["symexprs"]]
+    for name, es in d["aux"]["omaps"]:
+        for e in es:
+            if e[0] == ["i", iv["id"]]:
+                e[1] -= n
+    return d
 
 
 def block_size(d):
@@ -634,7 +733,7 @@ def runs_off_end(case):
             continue
         if e["op"] == "insert":
             # code appended behind the last block's terminator that itself runs off the end
-            lines = [l.strip() for l in e["asm"].splitlines() if l.strip() and not l.strip().endswith(":") and not l.strip().startswith(".")]
+            lines = [l.strip() for l in e.get("asm", "").splitlines() if l.strip() and not l.strip().endswith(":") and not l.strip().startswith(".")]
             last = lines[-1].split()[0] if lines else ""
             if e["off"] == size and last not in ("jmp", "ret"):
                 return True
